@@ -336,7 +336,7 @@ pub struct BuiltOutput {
 	/// Blinding Factor
 	#[serde(
 		serialize_with = "secp_ser::as_hex",
-		deserialize_with = "secp_ser::blind_from_hex"
+		deserialize_with = "dalek_ser::blind_from_hex"
 	)]
 	pub blind: BlindingFactor,
 	/// Key Identifier
